@@ -108,6 +108,21 @@ theorem multFloat64_one (l : Nat) (hl : l < 2 ^ 53) : multFloat64 l F64.one = .o
   rw [hb, F64.toNatTrunc_ofNat l hl]
   rfl
 
+theorem toNatTrunc_fin_false (m E : Nat) (h : m * 2 ^ E / 2 ^ 1074 < 2 ^ 64) :
+    F64.toNatTrunc (.fin false m E) = some (m * 2 ^ E / 2 ^ 1074) := by
+  unfold F64.toNatTrunc
+  simp only [Bool.false_eq_true, if_false]
+  rw [if_pos h]
+
+theorem multFloat64_of (l : Nat) (r x : F64) (n : Nat) (hr0 : F64.lt r F64.zero = false) (hx : F64.mul (F64.ofNat l) r = x)
+    (hx0 : F64.lt x F64.zero = false) (hn : F64.toNatTrunc x = some n) : multFloat64 l r = .ok n := by
+  unfold multFloat64
+  rw [hr0, hx]
+  simp only [hx0, Bool.false_eq_true, if_false]
+  unfold float64ToCoin
+  rw [hx0, hn]
+  rfl
+
 theorem div_le_of_le_mul' (x c U : Nat) (h : x ≤ c * U) : x / U ≤ c := by
   apply Nat.div_le_of_le_mul
   rw [Nat.mul_comm]; exact h
@@ -142,28 +157,21 @@ theorem multFloat64_defined (l m E : Nat) (hl : l < 2 ^ 63) (hr : m * 2 ^ E ≤ 
           _ ≤ (ml * 2 ^ El) * 2 ^ 1074 := Nat.mul_le_mul_left _ hr)
     have eX : F64.roundDiv false (ml * 2 ^ El) 1 = .fin false ml El := F64.roundDiv_repr false Nat.one_pos hXc (Nat.mul_one _).symm
     rw [eX, F64.roundDiv_eq] at hP
-    have hb : F64.lt (F64.mul (F64.ofNat l) (.fin false m E)) F64.zero = false := by
-      rw [hof]; exact F64.lt_roundDiv_zero _ _
-    unfold multFloat64
-    rw [lt_fin_false_zero]
-    simp only [hb, Bool.false_eq_true, if_false]
-    unfold float64ToCoin
-    rw [hb, hof]
-    simp only [F64.mul, bne_self_eq_false]
-    rw [F64.roundDiv_eq]
     by_cases hinf2 : 2045 < F64.finE (ml * m * 2 ^ (El + E)) (2 ^ 1074)
     · rw [if_pos hinf2] at hP; exact absurd hP (by simp [F64.leNN])
-    · rw [if_neg hinf2] at hP ⊢
+    · rw [if_neg hinf2] at hP
+      have hmulEq : F64.mul (F64.ofNat l) (.fin false m E) =
+          .fin false (F64.finM (ml * m * 2 ^ (El + E)) (2 ^ 1074)) (F64.finE (ml * m * 2 ^ (El + E)) (2 ^ 1074)) := by
+        rw [hof]
+        simp only [F64.mul, bne_self_eq_false]
+        rw [F64.roundDiv_eq, if_neg hinf2]
       have hle : F64.finM (ml * m * 2 ^ (El + E)) (2 ^ 1074) * 2 ^ F64.finE (ml * m * 2 ^ (El + E)) (2 ^ 1074) ≤ ml * 2 ^ El := hP
-      generalize F64.finM (ml * m * 2 ^ (El + E)) (2 ^ 1074) = mp at hle ⊢
-      generalize F64.finE (ml * m * 2 ^ (El + E)) (2 ^ 1074) = Ep at hle ⊢
+      generalize F64.finM (ml * m * 2 ^ (El + E)) (2 ^ 1074) = mp at hle hmulEq
+      generalize F64.finE (ml * m * 2 ^ (El + E)) (2 ^ 1074) = Ep at hle hmulEq
       have hle2 : mp * 2 ^ Ep ≤ 2 ^ 63 * 2 ^ 1074 := Nat.le_trans hle (Nat.le_trans hmag (Nat.le_of_eq h63.symm))
       have hq : mp * 2 ^ Ep / 2 ^ 1074 ≤ 2 ^ 63 := div_le_of_le_mul' _ _ _ hle2
       have hq64 : mp * 2 ^ Ep / 2 ^ 1074 < 2 ^ 64 := Nat.lt_of_le_of_lt hq (by decide)
-      unfold F64.toNatTrunc
-      simp only [Bool.false_eq_true, if_false]
-      rw [if_pos hq64]
-      exact ⟨_, rfl⟩
+      exact ⟨_, multFloat64_of l _ _ _ (lt_fin_false_zero _ _) hmulEq (lt_fin_false_zero _ _) (toNatTrunc_fin_false mp Ep hq64)⟩
 
 end ZChain.Coin
 
